@@ -404,9 +404,67 @@ def _chunk_window(rng, L, span):
     return [cs, min(ce, L)]
 
 
-def make(kind, rng, mode=None, spelling=None):
+CUT_KINDS = ("cds", "transcript", "gene", "annot")
+CUTS = ("lo", "hi", "both")
+
+
+def _long_cds_tx(r, L, strand=None, i=0):
+    """a coding transcript spec whose CDS has >= 18 bases (several codons to lose and to keep)"""
+    for _ in range(200):
+        t = _tx_spec(r, L, strand=strand, coding=True, i=i)
+        c = t.get("cds")
+        if c and sum(e - s for s, e in c["blocks"]) >= 18:
+            return t
+    raise RuntimeError("no long CDS drawn")
+
+
+def _cut_window(r, L, cds_blocks, cut):
+    """chunk window that CUTS the CDS: at least one whole codon's worth of CDS bases is outside on the low-coordinate
+    side (`lo`), the high-coordinate side (`hi`) or on both sides, and at least 6 CDS bases stay inside"""
+    flat = [p for s, e in cds_blocks for p in range(s, e)]
+    n = len(flat)
+    a = r.randint(3, max(3, n // 3)) if cut in ("lo", "both") else 0          # CDS bases lost below
+    b = r.randint(3, max(3, n // 3)) if cut in ("hi", "both") else 0          # CDS bases lost above
+    cs = flat[a] if a else r.randint(0, flat[0])
+    ce = flat[n - 1 - b] + 1 if b else r.randint(flat[-1] + 1, L)
+    return [cs, ce]
+
+
+def _force_cut(kind, d, r, cut, L):
+    """rewrite the recipe so that its (primary) CDS is long and the sequence chunk cuts it"""
+    if kind == "cds":
+        t = _long_cds_tx(r, L)
+        keep = {k: d["cds"].get(k) for k in ("protein_id", "product", "qualifiers")}
+        d["cds"] = dict(t["cds"], **keep)
+        blocks = d["cds"]["blocks"]
+    elif kind == "transcript":
+        old = d["tx"]
+        d["tx"] = _long_cds_tx(r, L)
+        d["tx"]["qualifiers"] = old.get("qualifiers")
+        blocks = d["tx"]["cds"]["blocks"]
+    else:
+        if kind == "annot":
+            if not d["annot"]["genes"]:
+                d["annot"]["genes"] = [_gene_spec(r, L, False, 0)]
+            g = d["annot"]["genes"][0]
+        else:
+            g = d["gene"]
+        t = _long_cds_tx(r, L, strand=g["txs"][0]["strand"], i=99)
+        t["primary"] = True                      # get_primary_cds() is this transcript's CDS
+        for other in g["txs"]:
+            other["primary"] = None
+        g["txs"][0] = t
+        blocks = t["cds"]["blocks"]
+    d["chunk"] = _cut_window(r, L, blocks, cut)
+    d["cut"] = cut
+
+
+def make(kind, rng, mode=None, spelling=None, cut=None):
     """Draw a recipe. All randomness is consumed here; `recipe.build()` is deterministic.
-    `spelling`: "e" = sequence types are given as SequenceType members, "s" = as plain strings ('chromosome'), None = draw."""
+    `spelling`: "e" = sequence types are given as SequenceType members, "s" = as plain strings ('chromosome'), None = draw.
+    `cut` (chunk mode, kinds cds/transcript/gene/annot): "lo" | "hi" | "both" — the chunk window is guaranteed to cut the
+    (primary) CDS on the low-coordinate side / high-coordinate side / both, so that the chunk-relative view has fewer
+    codons than the chromosome view (5' or 3' by strand; CDS with >= 18 bases, 1-4 exons)."""
     if kind not in KINDS:
         raise KeyError(kind)
     mode = mode or rng.choice(MODES)
@@ -492,4 +550,7 @@ def make(kind, rng, mode=None, spelling=None):
     d["window"] = [a, rng.randint(a + 1, L)]
     cs = rng.randint(0, L // 2)
     d["chunk2"] = [cs, rng.randint(cs + 10, L)]
+    if cut and mode == "chunk" and kind in CUT_KINDS:
+        # a separate stream, so that recipes without `cut` are unchanged for a given seed
+        _force_cut(kind, d, random.Random(rng.getrandbits(32)), cut, L)
     return Recipe(kind, mode, d)
